@@ -179,7 +179,7 @@ def MakeID3v1(id3):
 
     for v2id, name in {"TIT2": "title", "TPE1": "artist",
                        "TALB": "album"}.items():
-        if v2id in id3:
+        if v2id in id3 and id3[v2id].text:
             text = id3[v2id].text[0].encode('latin1', 'replace')[:30]
         else:
             text = b""
